@@ -480,6 +480,22 @@ func namedWaits() [][]string {
 	return out
 }
 
+// waitOrder: four background commands with output, one of the named ones waited
+// for by name, then a plain wait, then a pattern that depends on the order in
+// which the remaining outputs are put together (the order the commands were
+// started in).
+func waitOrder() [][]string {
+	var out [][]string
+	starts := []string{"exec hecho bg1 &a&", "exec hecho bg2 &b&", "exec hecho bg3 &c&", "exec hecho bg4 &"}
+	for _, first := range [][]string{{"wait a"}, {"wait b"}, {"wait c"}, {"wait b", "wait a"}, nil} {
+		for _, pat := range []string{"bg1bg2", "bg2bg3", "bg3bg4", "bg1bg3", "bg2bg4", "bg1bg4", "bg4bg2", "bg4bg1", "bg3bg1", "bg4bg3", "^bg2bg3bg4$", "^bg1bg3bg4$", "^bg1bg2bg4$", "^bg3bg4$", "^bg1bg2bg3bg4$"} {
+			ls := append(append(append([]string{}, starts...), first...), "wait", "stdout "+pat, "ok")
+			out = append(out, ls)
+		}
+	}
+	return out
+}
+
 func violKey(class string, c scase) string { return class + " script=" + c.String() }
 
 func main() { tsh.Main(func() int { realMain(); return 0 }) }
@@ -594,6 +610,9 @@ func realMain() {
 	}
 	for _, cfg := range []config{def, {Panic: true}} {
 		for _, s := range namedWaits() {
+			cases = append(cases, scase{Cfg: cfg, Lines: s})
+		}
+		for _, s := range waitOrder() {
 			cases = append(cases, scase{Cfg: cfg, Lines: s})
 		}
 	}
